@@ -151,3 +151,92 @@ def bits_of(values):
     if a.dtype.kind == "u" and a.dtype.itemsize == 2:
         return a.astype(np.uint16)
     raise TypeError(f"unexpected dtype {a.dtype}")
+
+
+# ----------------------------------------------------------------------------
+# leader, volume directory: every field of every record, addressed as "<rec>:<field>" / "<rec>:<i>:<field>"
+
+ABS = {}  # filled as a side effect of the last decode: source -> (absolute offset, width, record)
+
+
+def _rec(out, raw, prefix, rec, data, base):
+    for f in synth.fields(rec):
+        b = data[base + f["off"]: base + f["off"] + f["width"]]
+        key = f"{prefix}:{f['name']}"
+        raw[key] = b
+        ABS[key] = (base + f["off"], f["width"], rec)
+        try:
+            out[key] = dec_field(f, b)
+        except Exception as e:  # the oracle only needs the fields that surface; keep the error for those that do
+            out[key] = e
+
+
+def leader(data):
+    """-> dict(values, raw, counts, offsets).  Record sequencing follows the bytes the file declares."""
+    out, raw, off = {}, {}, {}
+    ABS.clear()
+    pos = 0
+    _rec(out, raw, "led_fd", "led_fd", data, pos)
+    off["led_fd"] = pos
+    n_mp = out["led_fd:map_projection.number_of_records"]
+    pos += 720
+    off["ds"] = pos
+    _rec(out, raw, "ds", "ds", data, pos)
+    pos += 4096
+    for i in range(n_mp):
+        off[f"mp{i}"] = pos
+        _rec(out, raw, "mp" if i == 0 else f"mp{i}", "mp", data, pos)
+        pos += 1620
+    off["pp"] = pos
+    _rec(out, raw, "pp", "pp", data, pos)
+    pos += 4680
+    off["att"] = pos
+    _rec(out, raw, "att", "att_head", data, pos)
+    att_len = out["att:preamble.record_length"]
+    n_att = out["att:number_of_points"]
+    for i in range(n_att):
+        _rec(out, raw, f"att:{i}", "att_pt", data, pos + 16 + 120 * i)
+    pos += att_len
+    off["rad"] = pos
+    _rec(out, raw, "rad", "rad", data, pos)
+    pos += 9860
+    off["dq"] = pos
+    _rec(out, raw, "dqh", "dq_head", data, pos)
+    n_ch = out["dqh:number_of_channels"]
+    for i in range(n_ch):
+        _rec(out, raw, f"dqc:{i}", "dq_cal", data, pos + 222 + 32 * i)
+    _rec(out, raw, "dqg", "dq_geo", data, pos + 222 + 512)
+    for i in range(n_ch):
+        _rec(out, raw, f"dqm:{i}", "dq_mis", data, pos + 222 + 512 + 96 + 32 * i)
+    pos += 1620
+    for k in range(1, 5):
+        off[f"fac{k}"] = pos
+        _rec(out, raw, f"fac{k}", "fac_head", data, pos)
+        pos += out[f"fac{k}:preamble.record_length"]
+    off["f5"] = pos
+    _rec(out, raw, "f5", "f5", data, pos)
+    pos += 5000
+    return {"values": out, "raw": raw, "counts": {"n_mp": n_mp, "n_att": n_att, "n_ch": n_ch, "att_len": att_len},
+            "offsets": off, "end": pos}
+
+
+def volume(data):
+    out, raw = {}, {}
+    ABS.clear()
+    _rec(out, raw, "vd", "vd", data, 0)
+    n = out["vd:number_of_file_pointer_records"]
+    for i in range(n):
+        _rec(out, raw, f"fp:{i}", "fp", data, 360 * (1 + i))
+    _rec(out, raw, "txt", "txt", data, 360 * (1 + n))
+    return {"values": out, "raw": raw, "counts": {"n_fp": n}, "end": 360 * (2 + n)}
+
+
+def image_sources(data):
+    """every field of the image descriptor ("fd:<field>") and of every line prefix ("ln:<i>:<field>")"""
+    out, raw = {}, {}
+    ABS.clear()
+    _rec(out, raw, "fd", "img_fd", data, 0)
+    im = image(data)
+    for i, (s, _, _) in enumerate(im["starts"]):
+        _rec(out, raw, f"ln:{i}", im["rec"], data, s)
+    return {"values": out, "raw": raw, "counts": {"n_lines": im["n_records"]}, "image": im}
